@@ -27,7 +27,7 @@ import (
 )
 
 var st = stat.New("C20",
-	"Trial = {schedule class free | forced | inflight | overflow; 1..8 logging goroutines each logging 1..50 numbered entries through two loggers with separate recording writers; 0..1000 entries of pre-occupancy; forced: the flusher is parked at the yield hook between its two polls, the last entry is logged, the flush is requested (observed through an accessor), the flusher is released; inflight: a writer taking 40 ms per Write, flush requested while the last entry is off the queue but not yet written; overflow: 10001..10300 entries from one goroutine while the writer stalls for 250 ms}. Oracle over the recording writers after FlushLogger returned: every entry whose logging call returned before the flush request is present exactly once on the writer of its logger (and never on the other), entries of one goroutine appear in logging order, every Write call carries exactly one formatted entry (one line, one token), FlushLogger returns only after the flusher acknowledged (or the timeout passed) and within the 1 s flush timeout + slack. Non-trivial = forced trial, overflow trial, or >= 3 goroutines logging. Distinct = distinct trial JSON.",
+	"Trial = {schedule class free | forced | inflight | overflow; 1..8 logging goroutines each logging 1..50 numbered entries through two loggers with separate recording writers; 0..1000 entries of pre-occupancy; forced: the flusher is parked at the yield hook between its two polls, the last 1..20 entries of one goroutine are logged, the flush is requested (observed through an accessor), the flusher is released; inflight: a writer taking 40 ms per Write, flush requested while the last entry is off the queue but not yet written; overflow: 10001..10300 entries from one goroutine while the writer stalls for 250 ms}. Oracle over the recording writers after FlushLogger returned: every entry whose logging call returned before the flush request is present exactly once on the writer of its logger (and never on the other), entries of one goroutine appear in logging order, every Write call carries exactly one formatted entry (one line, one token), FlushLogger returns only after the flusher acknowledged (or the timeout passed) and within the 1 s flush timeout + slack. Non-trivial = forced trial, overflow trial, or >= 3 goroutines logging. Distinct = distinct trial JSON.",
 	"the losing interleaving is a window of a few nanoseconds without the hook; the hook (build tag verif, committed to the repository) makes it deterministic, the select between the two ready cases remains random (p = 1/2 per trial)",
 	"logger state is reset between trials through an overlay accessor that restarts the background flusher")
 
@@ -37,6 +37,20 @@ type Trial struct {
 	Entries    []int  `json:"entries"` // per goroutine
 	Pre        int    `json:"pre"`
 	Extra      int    `json:"extra,omitempty"` // overflow: entries beyond the queue capacity
+	// Hold: forced class - how many of goroutine 0's last entries are logged while the flusher
+	// is parked between its two polls (0 means 1)
+	Hold int `json:"hold,omitempty"`
+}
+
+func (t Trial) hold() int {
+	h := t.Hold
+	if h < 1 {
+		h = 1
+	}
+	if len(t.Entries) > 0 && h > t.Entries[0] {
+		h = t.Entries[0]
+	}
+	return h
 }
 
 type recWriter struct {
@@ -107,6 +121,9 @@ func draw(rt *rapid.T) Trial {
 		t.Entries = append(t.Entries, rapid.IntRange(1, 50).Draw(rt, "entries"))
 	}
 	t.Pre = rapid.SampledFrom([]int{0, 0, 1, 10, 100, 1000}).Draw(rt, "pre")
+	if t.Class == "forced" {
+		t.Hold = rapid.SampledFrom([]int{1, 1, 2, 3, 4, 7, 20}).Draw(rt, "hold")
+	}
 	return t
 }
 
@@ -160,7 +177,7 @@ func run(t Trial) *stat.Failure {
 			defer wg.Done()
 			n := t.Entries[g]
 			if t.Class == "forced" && g == 0 {
-				n--
+				n -= t.hold()
 			}
 			lg := l1
 			if g%2 == 1 {
@@ -194,7 +211,9 @@ func run(t Trial) *stat.Failure {
 			rogger.FlushLogger()
 			return stat.Failf("harness-failure", "flusher never reached the yield point (hook not compiled in? build needs -tags verif)")
 		}
-		l1.Infof("%s", token(no, 0, t.Entries[0]-1)) // returns: the entry is queued
+		for i := t.Entries[0] - t.hold(); i < t.Entries[0]; i++ {
+			l1.Infof("%s", token(no, 0, i)) // returns: the entry is queued
+		}
 	}
 	if t.Class == "inflight" {
 		// wait until the queue is empty while the writer is still busy with the last entry
@@ -279,8 +298,8 @@ func run(t Trial) *stat.Failure {
 			for i := 0; i < t.Entries[g]; i++ {
 				if seen[token(no, g, i)] != 1 {
 					what := ""
-					if t.Class == "forced" && g == 0 && i == t.Entries[0]-1 {
-						what = " (the entry logged while the flusher was between its two polls)"
+					if t.Class == "forced" && g == 0 && i >= t.Entries[0]-t.hold() {
+						what = fmt.Sprintf(" (one of the %d entries logged while the flusher was between its two polls)", t.hold())
 					}
 					return stat.Failf("entry-lost", "class %s: entry %d of goroutine %d%s, whose logging call returned before the flush was requested, was not written before FlushLogger returned (%v); queue length now %d", t.Class, i, g, what, took.Round(time.Millisecond), rogger.VerifQueueLen())
 				}
